@@ -1020,7 +1020,29 @@ fn run<C: Rep, D: Rep + Monty, B: Rep + Monty>(
             Op::Invert { dst, a, vartime } => {
                 opname = if *vartime { "invert_vartime".into() } else { "invert".into() };
                 if model.m.is_one() {
-                    continue; // Z/1Z: 0 is its own inverse or has none, depending on taste — nothing asserted
+                    // Z/1Z: 0 is its own inverse or has none, depending on taste — nothing asserted about the result,
+                    // but the call must not unwind and whatever it returns must be canonical
+                    macro_rules! inv1 {
+                        ($side:expr, $name:expr) => {
+                            if let Some(s) = $side.as_mut() {
+                                match guard(|| s.regs[*a].invert(*vartime)) {
+                                    Guarded::Done(Some(Some(v))) => {
+                                        if big(&v.mont()) >= model.m {
+                                            out.viol("C08/noncanonical", format!("{}:invert:m=1", $name), format!("invert for m = 1 returned the stored form {}", hexw(&v.mont())), None);
+                                        }
+                                    }
+                                    Guarded::Panic(p) => {
+                                        out.viol("C11/unexpected-panic", format!("monty:{}:invert:{}", $name, p.location), format!("invert on the {} replica (m = 1) panicked at {}: {}", $name, p.location, p.message), None);
+                                    }
+                                    _ => {}
+                                }
+                            }
+                        };
+                    }
+                    inv1!(c, "const");
+                    inv1!(d, "runtime");
+                    inv1!(b, "boxed");
+                    continue;
                 }
                 let x = model.regs[*a].clone();
                 let want = x.modinv(&model.m);
